@@ -66,3 +66,101 @@ Proof.
   - unfold a_limit, a', a_chain. cbn [holders]. rewrite hget_hset, sid_eqb_refl. cbn [h_chain].
     rewrite last_cons. apply (lim_link c m0 a t sc I0 Kn Gm).
 Qed.
+
+(* ---- a refused OpenConnection / OpenStream: the new scope is closed again -------------- *)
+Lemma kind_ok_zero : kind_ok (KStat stat0).
+Proof. cbn. split; [stat_crush | cbn; unfold max_int64; lia]. Qed.
+
+Lemma use_nonneg : forall m x, all_good m -> nonneg (use_of m x).
+Proof.
+  intros m x Gd. unfold use_of. destruct (get m x) as [sc|] eqn:G; [apply (Gd x sc G) | stat_crush].
+Qed.
+
+Lemma use_mem_le : forall m x, all_good m -> mem (use_of m x) <= max_int64.
+Proof.
+  intros m x Gd. unfold use_of. destruct (get m x) as [sc|] eqn:G; [apply good_mem_le, (Gd x sc G) | cbn; unfold max_int64; lia].
+Qed.
+
+Lemma uncharge_one_zero : forall e m, all_good m -> forall x, use_of (uncharge_one e (KStat stat0) m) x = use_of m x.
+Proof.
+  intros e m Gd x. destruct (uncharge_one_props e (KStat stat0) m kind_ok_zero Gd) as (_ & _ & Oth & _ & Ex & Dn).
+  destruct (sid_dec x e) as [->|Hne]; [|apply Oth, Hne].
+  destruct (is_done m e) eqn:D; [apply Dn; reflexivity|]. rewrite (Ex eq_refl).
+  - cbn [kdelta]. generalize (use_of m e). intros []. unfold stat_sub, stat0; cbn. f_equal; lia.
+  - cbn [kdelta]. pose proof (use_nonneg m e Gd) as N. revert N. generalize (use_of m e). intros. stat_crush.
+Qed.
+
+Lemma uncharge_dec_zero : forall l m, all_good m ->
+  all_good (uncharge_dec l (KStat stat0) m) /\
+  (forall x, shape_of (uncharge_dec l (KStat stat0) m) x = shape_of m x) /\
+  (forall x, use_of (uncharge_dec l (KStat stat0) m) x = use_of m x).
+Proof.
+  induction l as [|e r IH]; intros m Gd; [split; [exact Gd | split; reflexivity]|].
+  unfold uncharge_dec in *. cbn [fold_left].
+  destruct (uncharge_one_props e (KStat stat0) m kind_ok_zero Gd) as (Sh & Gd1 & _).
+  destruct (IH (decref (uncharge_one e (KStat stat0) m) e) (decref_good _ _ Gd1)) as (G2 & S2 & U2).
+  split; [exact G2|]. split.
+  - intros x. rewrite S2, decref_shape. apply Sh.
+  - intros x. rewrite U2, decref_use. apply uncharge_one_zero, Gd.
+Qed.
+
+(* Done on an open leaf scope that holds nothing *)
+Lemma scope_done_zero : forall m s sc, all_good m -> get m s = Some sc -> s_done sc = false ->
+  s_chain sc = [] -> s_use sc = stat0 ->
+  (forall y, y <> s -> shape_of (scope_done m s) y = shape_of m y /\ use_of (scope_done m s) y = use_of m y) /\
+  (exists sc', get (scope_done m s) s = Some sc' /\ s_done sc' = true /\ s_use sc' = stat0 /\ s_lim sc' = s_lim sc).
+Proof.
+  intros m s sc Gd G Dn Ec Eu. unfold scope_done. rewrite G, Dn, Ec, Eu.
+  fold (uncharge_dec (s_edges sc) (KStat stat0) m).
+  destruct (uncharge_dec_zero (s_edges sc) m Gd) as (G1 & S1 & U1). split.
+  - intros y Hne. unfold shape_of, use_of. rewrite get_upd.
+    destruct (sid_eqb s y) eqn:X; [apply sid_eqb_eq in X; congruence|].
+    split; [apply S1 | apply U1].
+  - destruct (shape_get m _ s sc (S1 s) G) as (sc1 & Gs & Q1 & _).
+    exists (set_done sc1). rewrite get_upd, sid_eqb_refl, Gs. cbn. repeat split. exact Q1.
+Qed.
+
+(* a closed, empty handle scope that nobody holds does not matter *)
+Lemma Inv_garbage : forall c m m' a s sc',
+  Inv c m a -> is_handle s = true -> hget (holders a) s = None ->
+  (forall y, y <> s -> shape_of m' y = shape_of m y /\ use_of m' y = use_of m y) ->
+  get m' s = Some sc' -> s_done sc' = true -> s_use sc' = stat0 -> lim_ok (s_lim sc') ->
+  Inv c m' a.
+Proof.
+  intros c m m' a s sc' I Hs Hf Oth Gs Dn Zu Ll. pose proof (I_wf c m a I) as W.
+  assert (Pres : forall q, q <> s -> get m q <> None -> get m' q <> None).
+  { intros q Hne Gq. apply (shape_present m m' q (proj1 (Oth q Hne)) Gq). }
+  assert (Us : use_of m s = stat0).
+  { unfold use_of. destruct (get m s) as [sc|] eqn:G; [apply (I_garbage c m a I s sc G Hs Hf) | reflexivity]. }
+  constructor.
+  - exact W.
+  - intros x scx Gx. destruct (sid_dec x s) as [->|Hne].
+    + rewrite Gs in Gx. inversion Gx; subst scx. split; [exact Ll|]. rewrite Zu.
+      destruct Ll as (H1 & H2 & H3 & H4 & H5 & H6 & H7 & H8). split; [stat_crush | unfold fits; cbn; repeat split; lia].
+    + destruct (Oth x Hne) as [Sx Ux]. unfold shape_of in Sx. rewrite Gx in Sx.
+      destruct (get m x) as [sc|] eqn:G; cbn in Sx; [|discriminate]. unfold shape in Sx. inversion Sx as [[E1 E2 E3 E4]].
+      destruct (I_good c m a I x sc G) as (L & N & F).
+      rewrite (use_of_get m' x scx Gx), (use_of_get m x sc G) in Ux. split; [rewrite E1; exact L | rewrite Ux, E1; split; assumption].
+  - intros x scx Gx Hh. assert (Hne : x <> s) by (intros ->; congruence).
+    destruct (Oth x Hne) as [Sx _]. unfold shape_of in Sx. rewrite Gx in Sx.
+    destruct (get m x) as [sc|] eqn:G; cbn in Sx; [|discriminate]. unfold shape in Sx. inversion Sx as [[E1 E2 E3 E4]].
+    rewrite E1, E2, E3, E4. apply (I_static c m a I x sc G Hh).
+  - destruct (I_base c m a I) as (B1 & B2 & B3 & B4).
+    repeat split; (apply Pres; [intros X; rewrite <- X in Hs; discriminate Hs | assumption]).
+  - intros y h G Hh. assert (Hne : y <> s) by (intros ->; congruence).
+    destruct (I_handle c m a I y h G Hh) as (sc & Gm & P).
+    destruct (shape_get m m' y sc (proj1 (Oth y Hne)) Gm) as (scy & Gy & Q1 & Q2 & Q3 & Q4).
+    exists scy. rewrite Q1, Q2, Q3, Q4. split; assumption.
+  - intros y h G D. destruct (I_present c m a I y h G D) as [P1 P2]. split.
+    + intros q Hq. apply Pres; [|apply P1, Hq]. intros ->. apply (a_par_static a y s W) in Hq. congruence.
+    + intros o Ho Hst. apply Pres; [intros ->; congruence | apply (P2 o Ho Hst)].
+  - intros y scy Gy Hh Hn. destruct (sid_dec y s) as [->|Hne].
+    + rewrite Gs in Gy. inversion Gy; subst scy. split; assumption.
+    + destruct (Oth y Hne) as [Sy Uy]. unfold shape_of in Sy. rewrite Gy in Sy.
+      destruct (get m y) as [sc|] eqn:G; cbn in Sy; [|discriminate]. unfold shape in Sy. inversion Sy as [[E1 E2 E3 E4]].
+      destruct (I_garbage c m a I y sc G Hh Hn) as [D Z]. split; [rewrite E2; exact D|].
+      rewrite <- (use_of_get m' y scy Gy), Uy, (use_of_get m y sc G). exact Z.
+  - intros x. rewrite <- (I_num c m a I x). destruct (sid_dec x s) as [->|Hne].
+    + rewrite Us. rewrite (use_of_get m' s sc' Gs). exact Zu.
+    + apply (Oth x Hne).
+Qed.
